@@ -16,7 +16,7 @@ from ..refterms import BASEREF, RefModel, in_handler, is_ref_test, mk, unmk
 from .common import sctx
 
 PROP = "C04"
-FLOORS = {"C04.R1": 100, "C04.R2": 9, "C04.R3": 20, "C04.R4": 14, "C04.R5": 22, "C04.R6": 10, "C04.R7": 5}
+FLOORS = {"C04.R1": 100, "C04.R2": 9, "C04.R3": 20, "C04.R4": 14, "C04.R5": 22, "C04.R6": 10, "C04.R7": 5, "C04.R8": 20}
 META = {
     "explanation": "Structural induction: for every operator dunder of BaseRef (Python data-model table) the node class built, the "
                    "operand order, the operator applied by that class's _get_value to the _mk_value of its operand fields and the "
@@ -530,7 +530,33 @@ def _calls(col, rule="C04.R7"):
             str({f: [S.show(v) for _, v, _, _, _ in l] for f, l in fs.items() if f != "_hash"}))
 
 
+def _no_build_time_algebra(col, rule="C04.R1"):
+    """the operator dunders are BaseRef's alone: a node class that overrides one (`NegExpr.__neg__` returning the inner operand, a `PowExpr.__pow__`
+    folding towers) rewrites the expression when it is built -- identities of real arithmetic that Python's operators do not obey for every
+    operand type (-(-True) is 1, not True; (x**2)**0.5 is |x|)"""
+    rm = model(col)
+    ops = set(PD.UNARY)
+    for fwd, (_op, _tok, refl, _ip) in PD.BINARY.items():
+        ops.add(fwd)
+        if refl:
+            ops.add(refl)
+    ops |= set(PD.BUILTINS)
+    base = rm.cls("BaseRef")
+    ops = {o for o in ops if o in base.methods}
+    n = 0
+    for c in rm.classes:
+        if c.name == "BaseRef":
+            continue
+        over = sorted(o for o in ops if o in c.methods and c.methods[o] is not base.methods.get(o))
+        n += 1
+        col.add(rule, f"{c.name}#inherits-operator-dunders", not over, c.module.loc(c.methods[over[0]]) if over else c.module.loc(c.node),
+                "expression classes do not override BaseRef's operator dunders (no algebraic rewriting at construction)", str(over))
+    col.count("node_classes_scanned", n)
+
+
 def check(col: Collector):
+    with col.rule():
+        _no_build_time_algebra(col)
     with col.rule():
         _binary(col)
     with col.rule():
@@ -545,3 +571,10 @@ def check(col: Collector):
         _leaves(col)
     with col.rule():
         _calls(col)
+    # a C-typed local or parameter in a node's evaluation coerces the Python value (a shift count becomes a 32-bit int, a numpy scalar a
+    # plain int): the deferred result then differs from Python's, in the compiled build
+    from . import c20
+    from .common import shared
+    with col.rule():
+        shared(col, "C04.R8", [c20._cinit_rules], select=lambda o: "no-enforced-parameter-types" in o.construct,
+               why="evaluation must hand Python's own objects to Python's own operators")
